@@ -881,8 +881,25 @@ func (g *plGen) step() {
 			}
 		}
 	case k < 24:
-		if len(g.enums) > 0 {
-			g.emit(sprintf("pl enum.rm %d %d", g.anyOf(g.enums), g.anyOf(g.vals)))
+		if len(g.enums) > 0 && len(g.vals) > 0 {
+			// mostly a value that IS in an enum, removed from that enum (any index: first, middle, highest)
+			en, v := g.anyOf(g.enums), g.anyOf(g.vals)
+			if r.Intn(4) != 0 {
+				for try := 0; try < 8; try++ {
+					cand := g.anyOf(g.vals)
+					val := g.ex.vals[cand]
+					if val == nil || val.ParentEnum() == nil {
+						continue
+					}
+					for _, eid := range g.enums {
+						if g.ex.enums[eid] == val.ParentEnum() {
+							en, v = eid, cand
+						}
+					}
+					break
+				}
+			}
+			g.emit(sprintf("pl enum.rm %d %d", en, v))
 		}
 	case k < 25:
 		if len(g.enums) > 0 {
